@@ -32,6 +32,7 @@ sCreate_CompCol_Matrix(SuperMatrix *A, int_t m, int_t n, int_t nnz, float *nzval
     A->nrow = m;
     A->ncol = n;
     A->Store = (void *) SUPERLU_MALLOC( sizeof(NCformat) );
+    if ( !(A->Store) ) SUPERLU_ABORT("SUPERLU_MALLOC fails for A->Store");
     Astore = (NCformat *) A->Store;
     Astore->nnz = nnz;
     Astore->nzval = nzval;
@@ -52,6 +53,7 @@ sCreate_CompRow_Matrix(SuperMatrix *A, int_t m, int_t n, int_t nnz, float *nzval
     A->nrow = m;
     A->ncol = n;
     A->Store = (void *) SUPERLU_MALLOC( sizeof(NRformat) );
+    if ( !(A->Store) ) SUPERLU_ABORT("SUPERLU_MALLOC fails for A->Store");
     Astore = (NRformat *) A->Store;
     Astore->nnz = nnz;
     Astore->nzval = nzval;
@@ -72,6 +74,7 @@ sCreate_CompCol_Permuted(SuperMatrix *A, int_t m, int_t n, int_t nnz, float *nzv
     A->nrow = m;
     A->ncol = n;
     A->Store = (void *) SUPERLU_MALLOC( sizeof(NCPformat) );
+    if ( !(A->Store) ) SUPERLU_ABORT("SUPERLU_MALLOC fails for A->Store");
     Astore = (NCPformat *) A->Store;
     Astore->nnz = nnz;
     Astore->nzval = nzval;
@@ -212,6 +215,7 @@ sCreate_Dense_Matrix(SuperMatrix *X, int_t m, int_t n, float *x, int_t ldx,
     X->nrow = m;
     X->ncol = n;
     X->Store = (void *) SUPERLU_MALLOC( sizeof(DNformat) );
+    if ( !(X->Store) ) SUPERLU_ABORT("SUPERLU_MALLOC fails for X->Store");
     Xstore = (DNformat *) X->Store;
     Xstore->lda = ldx;
     Xstore->nzval = (float *) x;
@@ -248,6 +252,7 @@ sCreate_SuperNode_Matrix(SuperMatrix *L, int_t m, int_t n, int_t nnz, float *nzv
     L->nrow = m;
     L->ncol = n;
     L->Store = (void *) SUPERLU_MALLOC( sizeof(SCformat) );
+    if ( !(L->Store) ) SUPERLU_ABORT("SUPERLU_MALLOC fails for L->Store");
     Lstore = L->Store;
     Lstore->nnz = nnz;
     Lstore->nsuper = col_to_sup[n];
@@ -277,6 +282,7 @@ sCreate_SuperNode_Permuted(SuperMatrix *L, int_t m, int_t n, int_t nnz,
     L->nrow = m;
     L->ncol = n;
     L->Store = (void *) SUPERLU_MALLOC( sizeof(SCPformat) );
+    if ( !(L->Store) ) SUPERLU_ABORT("SUPERLU_MALLOC fails for L->Store");
     Lstore = L->Store;
     Lstore->nnz = nnz;
     Lstore->nsuper = col_to_sup[n];
